@@ -7,10 +7,14 @@ package main
 import (
 	"encoding/hex"
 	"fmt"
+	"os"
+	"path/filepath"
+	"sort"
 	"strings"
 
 	"github.com/thought-machine/please/src/core"
 	"github.com/thought-machine/please/src/parse/asp"
+	"github.com/thought-machine/please/src/plz"
 	"verif/harness/lib"
 )
 
@@ -493,6 +497,16 @@ func (h *H) runOp(op string) {
 			return
 		}
 		h.sbx(op, f[1], l, wl, dirs)
+	case f[0] == "cl" && len(f) == 5:
+		p, ok1 := unhex(f[1])
+		exp, ok2 := parseStrList(f[2])
+		bl, ok3 := parseStrList(f[3])
+		pkgs, ok4 := parseStrList(f[4])
+		if !(ok1 && ok2 && ok3 && ok4) {
+			bad()
+			return
+		}
+		h.cmdline(op, p, exp, bl, pkgs)
 	case f[0] == "sel" && len(f) == 5 && (f[1] == "inc" || f[1] == "mat"):
 		p, ok1 := unhex(f[2])
 		n, ok2 := unhex(f[3])
@@ -541,6 +555,180 @@ func (h *H) runOp(op string) {
 	default:
 		bad()
 	}
+}
+
+// ---------------------------------------------------------------- command-line expansion of //p/...
+
+func okComp(c string) bool { return c != "" && c != "." && c != "BUILD" && !strings.Contains(c, "/") }
+
+func okPath(p string) bool {
+	if p == "" {
+		return true
+	}
+	for _, c := range strings.Split(p, "/") {
+		if !okComp(c) {
+			return false
+		}
+	}
+	return true
+}
+
+// excludedDir: the documented exclusions of `...` expansion for the directory with root-relative path q:
+// plz-out, hidden, an experimental directory (root-relative, whole path), blacklisted (by name or by a leading
+// sequence of whole components).
+func excludedDir(q string, exp, bl []string) bool {
+	base := q
+	if i := strings.LastIndexByte(q, '/'); i >= 0 {
+		base = q[i+1:]
+	}
+	if q == "" {
+		base = "."
+	}
+	if base == "plz-out" || (q != "" && strings.HasPrefix(base, ".")) {
+		return true
+	}
+	name := q
+	if q == "" {
+		name = "."
+	}
+	for _, e := range exp {
+		if e == name {
+			return true
+		}
+	}
+	for _, d := range bl {
+		if d == base || (d != "" && under(d, q) && q != "") {
+			return true
+		}
+	}
+	return false
+}
+
+var cmdN int
+
+// cmdline materialises the repository (one BUILD file per package) under $VERIF_SCRATCH, runs the real walk that
+// expands `//p/...` from the command line and converts the BUILD files found to packages as findOriginalTask does.
+func (h *H) cmdline(op, p string, exp, bl, pkgs []string) {
+	r := h.r
+	if !okPath(p) {
+		r.Emit(op, "bad-op", false)
+		return
+	}
+	isDir := p == ""
+	for _, q := range pkgs {
+		if !okPath(q) {
+			r.Emit(op, "bad-op", false)
+			return
+		}
+		if under(p, q) {
+			isDir = true
+		}
+	}
+	if !isDir { // the real walk log.Fatalf's on a missing start directory
+		r.Emit(op, "bad-op", false)
+		return
+	}
+	scratch := os.Getenv("VERIF_SCRATCH")
+	if scratch == "" {
+		scratch = r.OutDir
+	}
+	cmdN++
+	dir := filepath.Join(scratch, fmt.Sprintf("cl%d", cmdN))
+	for _, q := range pkgs {
+		d := filepath.Join(dir, filepath.FromSlash(q))
+		if err := os.MkdirAll(d, 0o755); err != nil {
+			panic(err)
+		}
+		if err := os.WriteFile(filepath.Join(d, "BUILD"), nil, 0o644); err != nil {
+			panic(err)
+		}
+	}
+	os.MkdirAll(dir, 0o755)
+	cfg := core.DefaultConfiguration()
+	cfg.Parse.BuildFileName = []string{"BUILD"}
+	cfg.Parse.ExperimentalDir = exp
+	cfg.Parse.BlacklistDirs = bl
+	home, _ := os.Getwd()
+	if err := os.Chdir(dir); err != nil {
+		panic(err)
+	}
+	var got []string
+	for filename := range plz.FindAllBuildFiles(cfg, p, "") {
+		// findOriginalTask (src/plz/plz.go): the label's package is the directory of the BUILD file
+		dirname, _ := filepath.Split(filename)
+		got = append(got, strings.TrimLeft(strings.TrimPrefix(strings.TrimRight(dirname, "/"), ""), "/"))
+	}
+	os.Chdir(home)
+	os.RemoveAll(dir)
+	sort.Strings(got)
+	// direct oracle: exactly the packages the pattern Includes, minus those below an excluded directory
+	var want []string
+	pat := lab{p, "...", ""}
+	for _, q := range pkgs {
+		if !pat.core().Includes(core.BuildLabel{PackageName: q, Name: "all"}) || !under(p, q) {
+			continue
+		}
+		ok := true
+		// every directory from p down to q
+		rest := strings.TrimPrefix(strings.TrimPrefix(q, p), "/")
+		cur := p
+		if excludedDir(cur, exp, bl) {
+			ok = false
+		}
+		if rest != "" {
+			for _, c := range strings.Split(rest, "/") {
+				if cur == "" {
+					cur = c
+				} else {
+					cur += "/" + c
+				}
+				if excludedDir(cur, exp, bl) {
+					ok = false
+				}
+			}
+		}
+		if ok {
+			want = append(want, q)
+		}
+	}
+	sort.Strings(want)
+	uniq := func(xs []string) []string {
+		var out []string
+		for i, x := range xs {
+			if i == 0 || xs[i-1] != x {
+				out = append(out, x)
+			}
+		}
+		return out
+	}
+	got, want = uniq(got), uniq(want)
+	if strings.Join(got, ",") != strings.Join(want, ",") {
+		cls := "cmdline-expansion-deviates"
+		for _, q := range want {
+			missing := true
+			for _, g := range got {
+				if g == q {
+					missing = false
+				}
+			}
+			if missing {
+				for _, e := range exp {
+					eb := e[strings.LastIndexByte(e, '/')+1:]
+					for _, c := range strings.Split(q, "/") {
+						if c == eb && !under(e, q) {
+							cls = "cmdline-experimental-basename-match"
+						}
+					}
+				}
+			}
+		}
+		r.OracleFail(cls, op, fmt.Sprintf("%s with experimental dirs %q, blacklist %q over packages %q selects %q, documented %q", lab{p, "...", ""}.core(), exp, bl, pkgs, got, want))
+	}
+	r.Count("cl")
+	if len(got) > 0 && len(got) < len(pkgs) {
+		r.Count("cl-proper-subset")
+	}
+	r.Emit(op, showStrList(got), len(got) > 0 && len(got) < len(pkgs))
 }
 
 // ---------------------------------------------------------------- generators
@@ -743,6 +931,54 @@ func main() {
 			a := lab{lib.Pick(g, pats), lib.Pick(g, []string{"...", "all", "x", l.N, refParent(l).N}), genSub(g)}
 			h.runOp("inc " + showLab(a) + " " + showLab(l))
 			h.runOp("mat " + showLab(a) + " " + showLab(l))
+		}
+	}
+	// 6b. command-line expansion of //p/... on materialised repositories: experimental dirs (root-relative) whose
+	//     name re-occurs as a deeper component of a non-experimental package, blacklist entries, string-prefix siblings
+	clComps := []string{"src", "experimental", "exp", "deep", "lib", "experimentalx", "third_party", "a", "ab", ".hid", "plz-out", "tools"}
+	for i := 0; i < r.N(250, 2500); i++ {
+		seen := map[string]bool{}
+		var pkgs []string
+		for len(pkgs) < 3+g.Intn(7) {
+			n := 1 + g.Intn(3)
+			var cs []string
+			for k := 0; k < n; k++ {
+				cs = append(cs, lib.Pick(g, clComps[:8+g.Intn(5)]))
+			}
+			q := strings.Join(cs, "/")
+			if g.Chance(8) {
+				q = ""
+			}
+			if !seen[q] {
+				seen[q] = true
+				pkgs = append(pkgs, q)
+			}
+			if g.Chance(35) && q != "" { // a deeper package with the name of a (potential) experimental dir
+				d := q + "/" + lib.Pick(g, []string{"experimental", "exp", "deep/experimental"})
+				if !seen[d] {
+					seen[d] = true
+					pkgs = append(pkgs, d)
+				}
+			}
+		}
+		var exp, bl []string
+		for k := 0; k < g.Intn(3); k++ {
+			exp = append(exp, lib.Pick(g, []string{"experimental", "exp", "src/experimental", "experimentalx"}))
+		}
+		for k := 0; k < g.Intn(3); k++ {
+			bl = append(bl, lib.Pick(g, []string{"lib", "third_party", "a", "src/lib", "tools", "ab"}))
+		}
+		pats := []string{""}
+		for _, q := range pkgs {
+			if q != "" {
+				pats = append(pats, q)
+				if j := strings.IndexByte(q, '/'); j > 0 {
+					pats = append(pats, q[:j])
+				}
+			}
+		}
+		for k := 0; k < 3; k++ {
+			h.runOp("cl " + lib.Hex(lib.Pick(g, pats)) + " " + showStrList(exp) + " " + showStrList(bl) + " " + showStrList(pkgs))
 		}
 	}
 	// 7. fuzzed label strings: longer, wider alphabet (metacharacters, NUL, non-ASCII, invalid UTF-8), contexts
